@@ -11,6 +11,7 @@ import (
 	"os"
 	"os/exec"
 	"path/filepath"
+	"runtime"
 	"sort"
 	"strconv"
 	"strings"
@@ -273,10 +274,19 @@ func execOpKeep(op pOp, r *rInput, keep *func() string) (res string) {
 			res = "PANIC: " + fmt.Sprint(p)
 		}
 	}()
-	var opts []transformer.TransformOption
+	// options travel as a slice with spare capacity (what `append` hands out):
+	// a callee that inserts or appends in place writes into the caller's array
+	opts := make([]transformer.TransformOption, 0, 4)
 	if op.Opt {
 		opts = append(opts, transformer.WithIncludeSourceInformation(true))
 	}
+	defer func() {
+		for _, o := range opts[len(opts):cap(opts)] {
+			if o != nil {
+				res = "INPUT-MODIFIED: the options slice passed as opts... was written to beyond its length"
+			}
+		}
+	}()
 	switch op.Kind {
 	case "dsl2proto":
 		m, err := transformer.TransformDSLToProto(r.dsl)
@@ -348,7 +358,36 @@ func execOpKeep(op pOp, r *rInput, keep *func() string) (res string) {
 		if g.Nodes().Len() <= 24 {
 			cyc = cycleFlags(g.GetCycles())
 		}
-		return "dot: " + g.GetDOT() + " rev: " + rev.GetDOT() + " cycles: " + cyc
+		out := "dot: " + g.GetDOT() + " rev: " + rev.GetDOT() + " cycles: " + cyc
+		// the caller prunes a graph derived from these two (gonum's mutation API
+		// is promoted through the embedded graph): their answers do not change
+		if r2, err := rev.Reversed(); err == nil && len(r.labels) > 0 {
+			look := func() string {
+				var sb strings.Builder
+				for _, l := range r.labels {
+					_, e1 := g.GetNodeByLabel(l)
+					_, e2 := rev.GetNodeByLabel(l)
+					sb.WriteString(strconv.FormatBool(e1 == nil) + strconv.FormatBool(e2 == nil))
+				}
+				return sb.String()
+			}
+			before := look()
+			it := r2.Nodes()
+			var ids []int64
+			for it.Next() {
+				ids = append(ids, it.Node().ID())
+			}
+			sort.Slice(ids, func(i, j int) bool { return ids[i] < ids[j] })
+			for i, id := range ids {
+				if i%2 == 0 {
+					r2.RemoveNode(id)
+				}
+			}
+			if look() != before || "dot: "+g.GetDOT()+" rev: "+rev.GetDOT()+" cycles: "+cyc != out {
+				out = "OBJECTS-NOT-INDEPENDENT: removing nodes from Reversed().Reversed() changed what the graph or its reversal answer (label lookup / DOT)"
+			}
+		}
+		return out
 	case "wgraph":
 		builder := sharedBuilder
 		if builder == nil {
@@ -363,8 +402,31 @@ func execOpKeep(op pOp, r *rInput, keep *func() string) (res string) {
 			// on the traversal order (not fixed by any statement): verdict only
 			return "rejected"
 		}
-		kept(func() string { return "graph: " + snapshot(g).text })
-		return "graph: " + snapshot(g).text
+		out := "graph: " + snapshot(g).text
+		if scribbleResults {
+			return out
+		}
+		// the caller keeps the nodes and edges, not the graph (which may then be
+		// collected and finalised): they must go on saying what they said
+		var nodes []*graph.WeightedAuthorizationModelNode
+		var edges []*graph.WeightedAuthorizationModelEdge
+		labels := make([]string, 0, len(g.GetNodes()))
+		for l := range g.GetNodes() {
+			labels = append(labels, l)
+		}
+		sort.Strings(labels)
+		for _, l := range labels {
+			nodes = append(nodes, g.GetNodes()[l])
+			edges = append(edges, g.GetEdges()[l]...)
+		}
+		base := renderParts(nodes, edges)
+		kept(func() string {
+			if now := renderParts(nodes, edges); now != base {
+				return "graph parts kept by the caller changed: " + diffAt(base, now)
+			}
+			return out
+		})
+		return out
 	case "graphquery":
 		g := r.sharedG
 		if g == nil {
@@ -684,6 +746,8 @@ func (c *pureCtx) check(cfg simrt.Config) ([]mismatch, simrt.Stats, string) {
 			want := refOf(rs.op)
 			if strings.HasPrefix(rs.res, "INPUT-MODIFIED") {
 				add("input.modified", "%s on input %d: %s", rs.op.Kind, rs.op.In, rs.res)
+			} else if strings.HasPrefix(rs.res, "OBJECTS-NOT-INDEPENDENT") {
+				add("result.objects_share_state", "%s on input %d: %s", rs.op.Kind, rs.op.In, rs.res)
 			} else if rs.res != want {
 				class := "result.differs"
 				if strings.HasPrefix(rs.res, "PANIC") {
@@ -695,7 +759,20 @@ func (c *pureCtx) check(cfg simrt.Config) ([]mismatch, simrt.Stats, string) {
 	}
 	// results the callers kept: after all the other calls of the run (and the
 	// reference calls) the objects the library handed out must still say what
-	// they said when they were returned
+	// they said when they were returned - also after a garbage collection in
+	// which finalizers of objects the callers dropped have run
+	runtime.GC()
+	for i := 0; i < 10; i++ {
+		runtime.Gosched()
+	}
+	simrt.RunPendingFinalizers()
+	for _, op := range []pOp{{Kind: "wgraph"}, {Kind: "plaingraph"}, {Kind: "proto2dsl"}} {
+		for i, ri := range refIn {
+			if ri.pm != nil && i < 2 {
+				_ = execOp(pOp{Kind: op.Kind, In: i}, ri)
+			}
+		}
+	}
 	for t := range results {
 		for _, rs := range results[t] {
 			if rs.again == nil {
